@@ -25,6 +25,7 @@ const char *mc_rule = "pool of <=5 real nodes named from {a,b,unnamed} with coun
                       "snap jobs = EVERY state of the pool (all forests x all root-list partitions x all live subsets, up to renaming equally named slots) is a start state and every op instance "
                       "(after/before x all pairs, gnode_add/node_add/gnode_insert/node_insert x all pairs x pos{0,1,2,3,-1,-2}, unlink, move, node/list/tree clone, clear, destroy, swap, switch, relink, relink-after-manual-concatenation, new) "
                       "is executed from each; hist jobs = BFS over histories from hand-made start states (3- and 4-node pools, reaches the same closed state set); "
+                      "cxx jobs = the same snapshot exploration with pool nodes created by mpt::node::create plus ~node() at every list position, set_metatype, operator=(reference), destruction of a stack / new'ed parent node; "
                       "parse jobs = DFS over all ordered pairs of config texts with <=3 (quick) / <=4 (thorough) entries, nesting <=3, names {a,b}: parse into the empty root, then merge the second text; "
                       "nontrivial = distinct (state,op) transitions executed on the real code whose pre- or post-state contains at least one linked node, resp. parse cases that merge a non-empty text into a populated root";
 
@@ -937,7 +938,6 @@ static int setup(const std::string &job, std::vector<uint64_t> &inits)
 	std::string names = job.substr(p1 + 1, p2 - p1 - 1), in = job.substr(p2 + 1, p3 == std::string::npos ? p3 : p3 - p2 - 1);
 	g_N = (int) names.size();
 	for (int i = 0; i < g_N; ++i) g_name[i] = names[i] == 'a' ? 0 : (names[i] == 'b' ? 1 : 2);
-	build_ops();
 	g_cxx = job.compare(0, 4, "cxx:") == 0;
 	build_ops();
 	if (job.compare(0, 5, "snap:") == 0 || g_cxx) {
